@@ -49,18 +49,24 @@ def _alarm(signum, frame):
 
 
 class time_limit:
-    """Watchdog for calls into the implementation (main thread of a worker only)."""
+    """Watchdog for calls into the implementation (main thread of a worker only).  The limit is CPU time of this
+    process (a hang in generated code burns CPU), so a loaded machine cannot turn a fast parse into a time-out;
+    a wall-clock backstop of twenty times the limit catches anything that blocks without computing."""
 
     def __init__(self, seconds):
         self.seconds = seconds
 
     def __enter__(self):
-        self.old = signal.signal(signal.SIGALRM, _alarm)
-        signal.setitimer(signal.ITIMER_REAL, self.seconds)
+        self.old_prof = signal.signal(signal.SIGPROF, _alarm)
+        self.old_alrm = signal.signal(signal.SIGALRM, _alarm)
+        signal.setitimer(signal.ITIMER_PROF, self.seconds)
+        signal.setitimer(signal.ITIMER_REAL, self.seconds * 20)
 
     def __exit__(self, *a):
+        signal.setitimer(signal.ITIMER_PROF, 0)
         signal.setitimer(signal.ITIMER_REAL, 0)
-        signal.signal(signal.SIGALRM, self.old)
+        signal.signal(signal.SIGPROF, self.old_prof)
+        signal.signal(signal.SIGALRM, self.old_alrm)
         return False
 
 
